@@ -94,7 +94,7 @@ def _entries(k, gen):
     return out
 
 
-@harness("C15.crash", cases=lambda tier: [(0, 1), (1, 1), (2, 2)] + ([(3, 2)] if tier == "thorough" else []),
+@harness("C15.crash", cases=lambda tier: [(0, 1), (1, 1), (2, 2)] + ([(3, 2), (3, 3), (0, 3)] if tier == "thorough" else []),
          expect=lambda c: ["old-cache-intact-or-completely-replaced", "load-restores-one-generation"])
 def k_crash(ctx):
     k_old, k_new = ctx.case
@@ -247,3 +247,42 @@ OUTSIDE = ["real file-system crash semantics (rename atomicity is an assumption 
            "json.dump / json.load internals (executed for real)"]
 STUBS = ["ModelFS with a fault before every I/O call", "symbolic datetimes + abstract time strings", "atexit.register recorder"]
 ASSUMPTIONS = ["rename is atomic", "a crash is modelled as an exception at an I/O call"]
+
+
+# ---- K5: find() gives the same answers with and without the cache, across a restart -------------------------
+@harness("C15.find-with-cache", expect=lambda c: ["same-find-result-after-restart"])
+def k_find_cache(ctx):
+    from props.fsetlib import sym_env
+    mfs = ModelFS(ctx, max_faults=0)
+    cache = "/cache/info.json"
+    tmpl = "/data/{year}/{month}/{day}/{hour}{minute}-{end_hour}{end_minute}_{sat}.nc"
+    names = ["/data/2019/12/31/2330-0030_A.nc", "/data/2020/01/01/0000-0100_B.nc", "/data/2020/02/29/1200-1230_A.nc"]
+    for i, p in enumerate(names):
+        mfs.files[p] = ("c", i)
+    win = ST.Window(2018, 1, 2020, 6)
+    with _io_env(ctx, mfs), sym_env(ctx, win):
+        a = make_fileset(ctx, tmpl, mfs)
+        start = ST.sym_datetime(ctx, "start", win, lo=datetime(2019, 12, 1), hi=datetime(2020, 4, 1))
+        end = ST.sym_datetime(ctx, "end", win, lo=datetime(2019, 12, 1), hi=datetime(2020, 4, 1))
+        ctx.assume(start < end)
+
+        def found(fs):
+            try:
+                return [(f.path, f.times, f.attr) for f in fs.find(start, end)]
+            except F.NoFilesError:
+                return []
+        list(a.find(no_files_error=False))            # fills the cache with every file
+        first = found(a)
+        a.save_cache(cache)
+        b = make_fileset(ctx, tmpl, mfs)
+        b.load_cache(cache)
+        ctx.check("cache-restored-completely", sorted(b.info_cache) == sorted(names) and
+                  all(b.info_cache[p].times == a.info_cache[p].times and b.info_cache[p].attr == a.info_cache[p].attr for p in names))
+        second = found(b)
+        c = make_fileset(ctx, tmpl, mfs)              # no cache at all
+        third = found(c)
+    ctx.check("same-find-result-after-restart", first == second == third, detail="%r | %r | %r" % (first, second, third))
+
+
+PLAN["quick"]["harnesses"].append("C15.find-with-cache")
+PLAN["thorough"]["harnesses"].append("C15.find-with-cache")
